@@ -105,8 +105,9 @@ pub fn make_builder_cb(
     for (ri, r) in regs.iter().enumerate() {
         match r {
             Reg::Barrier => b.add_barrier(),
-            Reg::Sys { name, deps, reads, writes, hint } => {
-                let s = DynSys::new(ctx, *sid, reads, writes, *hint);
+            Reg::Sys { name, deps, reads, writes, hint, expect } => {
+                let mut s = DynSys::new(ctx, *sid, reads, writes, *hint);
+                s.acc.expect = *expect;
                 *sid += 1;
                 let d: Vec<&str> = deps.iter().map(|x| x.as_str()).collect();
                 b.add(s, name, &d);
@@ -196,7 +197,7 @@ enum ModelVal {
 }
 
 fn declared_mask(ctx: &Ctx) -> u32 {
-    ctx.infos.iter().fold(0, |m, i| m | i.rmask | i.wmask)
+    ctx.infos.iter().filter(|i| !i.expect).fold(0, |m, i| m | i.rmask | i.wmask)
 }
 
 /// Reference model of `setup`: creates exactly the declared resources that are absent.
@@ -447,6 +448,13 @@ pub fn build(sc: &Scenario, opts: &BuildOpts) -> Built {
         compare_model(&ctx, &mut world, &model, "first setup", &mut setup_problems);
         for op in &sc.lifecycle {
             match op {
+                LifeOp::Remove(l) if *l < sc.resmap.len() && crate::plan::expect_only_mask(&sc.regs) & (1 << *l) != 0 => {
+                    // nobody would re-create it: overwrite instead of removing
+                    let k = sc.resmap[*l];
+                    let c = Core { v: 9_100_000 + *l as u64, ca: 9, cb: 9 };
+                    (k.vt().insert)(&mut world, k.dynid, c);
+                    model[*l] = ModelVal::Sentinel(c);
+                }
                 LifeOp::Remove(l) if *l < sc.resmap.len() => {
                     let k = sc.resmap[*l];
                     (k.vt().remove)(&mut world, k.dynid);
